@@ -5,6 +5,7 @@ import (
 	"errors"
 	"fmt"
 	"math"
+	"os"
 	"runtime"
 	"sort"
 	"strings"
@@ -161,6 +162,16 @@ type Op struct {
 	S bool          // val: stale-read flag
 	N uint64        // stale: prevSecond; exp: TTL
 	D time.Duration // setint / adv / vsa
+	L bool          // ts / async / low: use the second transaction scope (first use of a scope initialises its cache entry)
+}
+
+const localScope = "dc1"
+
+func (o Op) opt() *oracle.Option {
+	if o.L {
+		return &oracle.Option{TxnScope: localScope}
+	}
+	return gopt
 }
 
 func (o Op) Name() string {
@@ -174,6 +185,9 @@ func (o Op) Name() string {
 		return "val:" + o.V
 	case "setint", "adv", "vsa":
 		return o.K + ":" + o.D.String()
+	}
+	if o.L {
+		return o.K + "@" + localScope
 	}
 	return o.K
 }
@@ -192,6 +206,7 @@ type lowRead struct {
 	TS         uint64
 	MaxAtEnd   uint64
 	By         string
+	Scope      string
 }
 
 type callRec struct {
@@ -226,6 +241,7 @@ type world struct {
 	setupTS uint64
 	// step monitor (explorer goroutine only)
 	monPrev   uint64
+	monPrevL  uint64 // second scope
 	monViol   map[string]string
 	adaptive  []string
 	bgPending bool
@@ -240,11 +256,11 @@ func (w *world) tick() int64 {
 
 var gopt = &oracle.Option{TxnScope: oracle.GlobalTxnScope}
 
-func (w *world) low(by string) (uint64, error) {
+func (w *world) low(by string, opt *oracle.Option) (uint64, error) {
 	st := w.tick()
-	ts, err := w.o.GetLowResolutionTimestamp(context.Background(), gopt)
+	ts, err := w.o.GetLowResolutionTimestamp(context.Background(), opt)
 	if err == nil {
-		lr := lowRead{Start: st, TS: ts, MaxAtEnd: w.pd.max(), By: by}
+		lr := lowRead{Start: st, TS: ts, MaxAtEnd: w.pd.max(), By: by, Scope: opt.TxnScope}
 		lr.End = w.tick()
 		w.mu.Lock()
 		w.lows = append(w.lows, lr)
@@ -311,23 +327,23 @@ func (w *world) call(a int, op Op) bool {
 	r.Start = w.tick()
 	switch op.K {
 	case "ts":
-		r.TS, r.Err = w.o.GetTimestamp(ctx, gopt)
+		r.TS, r.Err = w.o.GetTimestamp(ctx, op.opt())
 		r.HasTS = r.Err == nil
 	case "async":
-		f := w.o.GetTimestampAsync(ctx, gopt)
+		f := w.o.GetTimestampAsync(ctx, op.opt())
 		r.TS, r.Err = f.Wait()
 		r.HasTS = r.Err == nil
 	case "low":
-		r.TS, r.Err = w.low("low")
+		r.TS, r.Err = w.low("low", op.opt())
 	case "stale":
 		r.TS, r.Err = w.o.GetStaleTimestamp(ctx, oracle.GlobalTxnScope, op.N)
 	case "exp":
 		// both answers are compared only if the cached timestamp was the same before and after
 		// (it never decreases, so equal ends mean it did not change in between)
-		r.L0, _ = w.low("exp")
+		r.L0, _ = w.low("exp", gopt)
 		r.Expired = w.o.IsExpired(lockTS(), op.N, gopt)
 		r.Until = w.o.UntilExpired(lockTS(), op.N, gopt)
-		r.L1, _ = w.low("exp")
+		r.L1, _ = w.low("exp", gopt)
 	case "val":
 		r.Err = w.o.ValidateReadTS(ctx, r.ReadTS, op.S, gopt)
 	case "vsa":
@@ -377,9 +393,12 @@ func (s *scen) Setup() {
 		panic(err)
 	}
 	w.o = o
+	// let the updateTS goroutine run to its select now (points are still off), so that where it
+	// stands when the first decision is taken does not depend on when the Go scheduler first ran it
+	sched.Quiesce()
 	w.setupTS = w.pd.max()
 	w.pd.issued[0].to = actorSetup
-	w.monPrev, _ = oracles.VerifLastTS(o)
+	w.monPrev, _ = oracles.VerifLastTS(o, oracle.GlobalTxnScope)
 	for i, prog := range s.progs {
 		a, prog := i+1, prog
 		sched.Go(fmt.Sprintf("caller%d", a), func() {
@@ -465,15 +484,21 @@ func (s *scen) Extra() []sched.Choice {
 	if w == nil || w.o == nil {
 		return nil
 	}
-	ts, ok := oracles.VerifLastTS(w.o)
-	if ok {
-		if ts < w.monPrev {
-			w.monViol["cached-ts:decreased"] = fmt.Sprintf("cached (low-resolution) timestamp went from #%d (%d) back to #%d (%d)", w.pd.indexOf(w.monPrev), w.monPrev, w.pd.indexOf(ts), ts)
+	for _, sc := range []struct {
+		scope string
+		prev  *uint64
+	}{{oracle.GlobalTxnScope, &w.monPrev}, {localScope, &w.monPrevL}} {
+		ts, ok := oracles.VerifLastTS(w.o, sc.scope)
+		if !ok {
+			continue
+		}
+		if ts < *sc.prev {
+			w.monViol["cached-ts:decreased"] = fmt.Sprintf("cached (low-resolution) timestamp of scope %s went from #%d (%d) back to #%d (%d)", sc.scope, w.pd.indexOf(*sc.prev), *sc.prev, w.pd.indexOf(ts), ts)
 		}
 		if mx := w.pd.max(); ts > mx {
-			w.monViol["cached-ts:ahead-of-pd"] = fmt.Sprintf("cached timestamp %d exceeds the largest timestamp PD has issued (%d)", ts, mx)
+			w.monViol["cached-ts:ahead-of-pd"] = fmt.Sprintf("cached timestamp %d of scope %s exceeds the largest timestamp PD has issued (%d)", ts, sc.scope, mx)
 		}
-		w.monPrev = ts
+		*sc.prev = ts
 	}
 	if s.tick {
 		cfg, ad, st := oracles.VerifAdaptive(w.o)
@@ -509,6 +534,16 @@ func (s *scen) Check(x *sched.Exec) []sched.Violation {
 	c13atomic.Disable()
 	w := s.w
 	var out []sched.Violation
+	if (x.Deadlock || x.Horizon) && os.Getenv("VERIF_C13_VERBOSE") != "" {
+		fmt.Fprintf(os.Stderr, "INCONCLUSIVE deadlock=%v horizon=%v in %s: trace %v\n  outcome %s\n", x.Deadlock, x.Horizon, s.name, x.Trace, s.outcome(x))
+		if os.Getenv("VERIF_C13_VERBOSE") == "stacks" {
+			buf := make([]byte, 1<<20)
+			fmt.Fprintf(os.Stderr, "%s\n", buf[:runtime.Stack(buf, true)])
+			for _, st := range x.Steps[len(x.Steps)-1:] {
+				fmt.Fprintf(os.Stderr, "last step: %+v\n", st)
+			}
+		}
+	}
 	add := func(key, what string) { out = append(out, sched.Violation{Key: key, What: what}) }
 	w.mu.Lock()
 	recs := append([]*callRec{}, w.recs...)
@@ -549,7 +584,7 @@ func (s *scen) Check(x *sched.Exec) []sched.Violation {
 			add("lowres:ahead-of-pd", fmt.Sprintf("GetLowResolutionTimestamp returned %d > largest issued %d", a.TS, a.MaxAtEnd))
 		}
 		for _, b := range lows {
-			if a.End < b.Start && a.TS > b.TS {
+			if a.Scope == b.Scope && a.End < b.Start && a.TS > b.TS {
 				add("lowres:decreased", fmt.Sprintf("GetLowResolutionTimestamp returned %s and a later call returned %s", idx(a.TS), idx(b.TS)))
 			}
 		}
@@ -616,7 +651,11 @@ func (s *scen) outcome(x *sched.Exec) string {
 		}
 		switch r.Op.K {
 		case "ts", "async", "low":
-			fmt.Fprintf(&sb, "#%d", w.pd.indexOf(r.TS))
+			if r.Err != nil {
+				sb.WriteString("err")
+			} else {
+				fmt.Fprintf(&sb, "#%d", w.pd.indexOf(r.TS))
+			}
 		case "stale":
 			if r.Err != nil {
 				sb.WriteString("err")
@@ -646,6 +685,9 @@ func (s *scen) outcome(x *sched.Exec) string {
 		sb.WriteString(" ")
 	}
 	fmt.Fprintf(&sb, "cached=#%d/%d", w.pd.indexOf(w.monPrev), len(w.pd.issued))
+	if w.monPrevL != 0 {
+		fmt.Fprintf(&sb, " %s=#%d", localScope, w.pd.indexOf(w.monPrevL))
+	}
 	if len(w.adaptive) > 1 {
 		sb.WriteString(" " + strings.Join(w.adaptive, ">"))
 	}
